@@ -430,7 +430,11 @@ def main(argv):
     ap.add_argument('--replay')
     ap.add_argument('--count', type=int)
     ap.add_argument('--no-evidence', action='store_true')
+    ap.add_argument('--no-minimise', action='store_true')   # accepted for uniformity
+    ap.add_argument('--runs', type=int)
     args = ap.parse_args(argv)
+    if args.runs and not args.count:
+        args.count = args.runs
     t0 = time.time()
     scratch = f'/dev/shm/verif-c12-{os.getpid():07d}'
     try:
